@@ -67,4 +67,15 @@ Definition check_C02 (kind : string) (input output : J) : verdict :=
         else malformed
     | _, _ => malformed
     end
+  else if String.eqb kind "bigprog" then
+    (* as "prog", the observed rows replaced by Canon.summary (big inputs) *)
+    match dec_prog input, dec_obs output with
+    | Some (s, steps, m), Some o =>
+        if c02_program m steps && negb (existsb is_try steps) then
+          V (big_agree m s steps o)
+            (obs_agree CExact (summarise true (OOk (denote s steps))) (observed_summary true o))
+            (reorder_changes s steps) false
+        else malformed
+    | _, _ => malformed
+    end
   else malformed.
